@@ -510,13 +510,13 @@ Section Typed.
           destruct value; try (apply forallb_app'; [exact Hl|]; cbn [forallb];
                                rewrite orb_false_r in Hv; rewrite Hv; reflexivity).
           cbn [typed_val] in Hv. destruct p'; cbn [orb] in Hv; apply forallb_app'; assumption. }
-        all: injection H as <-; rewrite <- T2; apply (setattr_typed o1 i f); [exact T1 | exact Hn|];
-          (destruct (fhint f) as [p'|p'|p'|pk pv'] eqn:Hh;
-           [ eapply ta_plain; eassumption
-           | eapply ta_optional; eassumption
-           | unfold typed_attr in Hc; try rewrite Hh in Hc;
-             first [discriminate Hc | exfalso; apply Hne; reflexivity]
-           | split_and; match goal with Hx : ptype_eqb (fty f) TMap = true |- _ => rewrite Hx in Em; discriminate Em end ]).
+        all: injection H as <-; rewrite <- T2; apply (setattr_typed o1 i f); [exact T1 | exact Hn|].
+        all: destruct (fhint f) as [p'|p'|p'|pk pv'] eqn:Hh.
+        all: try (eapply ta_plain; eassumption).
+        all: try (eapply ta_optional; eassumption).
+        all: try (unfold typed_attr in Hc; try rewrite Hh in Hc;
+             first [discriminate Hc | exfalso; apply Hne; reflexivity]).
+        all: split_and; match goal with Hx : false = true |- _ => discriminate Hx end.
     Qed.
 
     Lemma add_unknown_typed o bs : tobj (add_unknown o bs) = tobj o /\ ocls (add_unknown o bs) = ocls o.
@@ -572,11 +572,11 @@ Section Typed.
                      (load_field fuel) size' (get_class sc (ocls (mark_on_wire o))) (S (length s1))
                      (mark_on_wire o) s1 0 = Ok (o', s') -> tobj o' = true /\ ocls o' = ocls o).
     { intros o2 s2 HL. rewrite <- M2. eapply loop_r_typed; [| |reflexivity|exact HL].
-      - intros c' bs m Hm.
-        destruct (load_r fuel sc (new sc c') bs None) as [[m' rest]|] eqn:El; cbn [bind] in Hm; [|discriminate].
+      - intros c' bs m Hm. cbv beta in Hm.
+        destruct (load_r fuel sc (new sc c') bs None) as [[m' rest]|] eqn:El; cbn [bind] in Hm; [|discriminate Hm].
         injection Hm as <-. destruct (IH _ _ _ _ _ (new_typed c') El) as [T1 T2]. split; [exact T2 | exact T1].
       - rewrite M1. exact Ht. }
-    destruct size' as [[| |]|]; try (apply G; exact H).
+    destruct size' as [[| |]|]; try exact (G _ _ H).
     injection H as <- <-. rewrite M1, M2. tauto.
   Qed.
 
